@@ -54,19 +54,32 @@ class TraceExecutor(Executor):
         return super()._execute_command(subroutine_id, command)
 
     # --- quantum extension points
+    check_alloc = False      # True: every gate / measurement looks its qubit up with Executor._get_position, as a real back end does
+                             # (a gate on a virtual qubit that is not allocated then faults with NotAllocatedError)
+
+    def _need(self, subroutine_id, *addresses):
+        if self.check_alloc:
+            for a in addresses:
+                self._get_position(subroutine_id=subroutine_id, address=a)
+
     def _do_single_qubit_instr(self, instr, subroutine_id, address):
+        self._need(subroutine_id, address)
         self.trace.append((instr.mnemonic, address))
 
     def _do_single_qubit_rotation(self, instr, subroutine_id, address, angle):
+        self._need(subroutine_id, address)
         self.trace.append((instr.mnemonic, address, instr.angle_num.value, instr.angle_denom.value))
 
     def _do_controlled_qubit_rotation(self, instr, subroutine_id, address1, address2, angle):
+        self._need(subroutine_id, address1, address2)
         self.trace.append((instr.mnemonic, address1, address2, instr.angle_num.value, instr.angle_denom.value))
 
     def _do_two_qubit_instr(self, instr, subroutine_id, a1, a2):
+        self._need(subroutine_id, a1, a2)
         self.trace.append((instr.mnemonic, a1, a2))
 
     def _do_meas(self, subroutine_id, q_address):
+        self._need(subroutine_id, q_address)
         if not self.outcomes:
             raise PathAbort("outcome script exhausted")
         m = self.outcomes.pop(0)
